@@ -57,8 +57,13 @@ func divLayerI(v int64, bf uint) int {
 	return l & 0xff
 }
 
-// IndepLayer computes the layer of a concrete key under the published rule.
+// IndepLayer computes the layer of a concrete key under the published rule (default marshaler).
 func IndepLayer(k interface{}, bf uint) int {
+	return IndepLayerM(k, bf, json.Marshal)
+}
+
+// IndepLayerM: as IndepLayer, with the configured marshaler for keys layered by their marshaled bytes.
+func IndepLayerM(k interface{}, bf uint, marshal func(interface{}) ([]byte, error)) int {
 	switch v := k.(type) {
 	case UKey:
 		return int(v.L)
@@ -75,7 +80,7 @@ func IndepLayer(k interface{}, bf uint) int {
 	case []byte:
 		return divLayerU(crc64ecma(v), bf)
 	default:
-		b, _ := json.Marshal(k)
+		b, _ := marshal(k)
 		return divLayerU(crc64ecma(b), bf)
 	}
 }
